@@ -151,8 +151,24 @@ def run(ctx):
         for ops in short:
             run_history(ctx, pending, b, [0], ops, X_by_id, label, feats, ncomp)
     bg = umap.UMAP(n_neighbors=8, random_state=42, n_epochs=30, transform_mode="graph").fit(X0)
-    for ops in [[("T", 1)], [("T", "train")], [("T", 2), ("T", 1)]]:
+    for ops in [[("T", 1)], [("T", "train")], [("T", 2), ("T", 1)], [("U", 3), ("T", 1)], [("U", 3), ("T", "train"), ("T", 1)]]:
         run_history(ctx, pending, bg, [0], ops, X_by_id, "graph-mode", feats, ncomp, graph_mode=True)
+    # the training data given again in another (valid) memory layout: single-feature data as x[:, None] (strides (4, 0)) and as
+    # x.reshape(-1, 1).copy() (strides (4, 4)); a column-major copy; a float64 copy of float32 data
+    x1 = rng.normal(size=40).astype(np.float32)
+    for label, A, B in (("single-feature strides", x1[:, None], x1.reshape(-1, 1).copy()),
+                        ("column-major copy", X0, np.asfortranarray(X0)),
+                        ("float64 copy", X0, X0.astype(np.float64))):
+        case = {"model": "layout:" + label}
+        try:
+            m1 = umap.UMAP(n_neighbors=8, random_state=42, n_epochs=11).fit(A)
+            out = m1.transform(B)
+            if not (out.shape == m1.embedding_.shape and np.array_equal(out, m1.embedding_, equal_nan=True)):
+                ctx.violation("transform-training", f"transform(training data, {label}) is not the training embedding", case,
+                              key="C10:fingerprint-memory-layout")
+        except Exception as e:  # noqa
+            ctx.violation("exception", f"{label}: {type(e).__name__}: {e}", case)
+        ctx.case(key="layout" + label, nontrivial=False, model="layout", length=1)
     # CSR training data (the training set is recognised by its values, whatever object carries them) and a model fitted with a
     # list of epochs (fit keeps the intermediate embeddings; the model must stay usable)
     S_by = {i: scipy.sparse.csr_matrix(np.where(np.abs(X_by_id[i]) > 0.4, X_by_id[i], 0).astype(np.float32)) for i in X_by_id}
@@ -196,7 +212,7 @@ def run(ctx):
     for h, (toks, observed, case, graph_mode) in zip(hs, pending):
         model = [x.strip() for x in outs[h].split(";")]
         if graph_mode:
-            model = [" ".join(x.split()[:2] + [x.split()[2]] + x.split()[3:]) for x in model]
+            model = [" ".join(x.split()) for x in model]
         if model != observed:
             first = next((i for i, (a, b) in enumerate(zip(model, observed)) if a != b), min(len(model), len(observed)))
             ctx.mismatch("api", {"step": first, "model": model[first:first + 1], "impl": observed[first:first + 1]}, case)
